@@ -142,6 +142,91 @@ def build_ts_stream(rng, n_frames):
     return st
 
 
+TS_CC_SCENARIOS = ("start_plain", "start_foreign", "start_dup", "start_junk",
+                   "loss_junk", "loss_foreign_cut", "loss_junk_foreign", "loss_junk_dup", "sync_dup")
+
+
+def ts_junk(rng, n):
+    """n bytes without a sync byte and without a PES start code"""
+    return [rng.choice([0x46, 0x00, 0xFF, 0x48, 0x10, rng.randrange(2, 256)]) if rng.random() < 0.9 else 0x00 for _ in range(n)]
+
+
+def build_ts_cc_stream(rng, v, scenario):
+    """an intact TS stream in which the first VBI-PID packet the demultiplexer evaluates while it does not know
+    the expected continuity_counter (stream start, or after a loss of sync that damages no VBI packet) carries
+    continuity_counter `v` - for every v in 0..15 and every way to get there (TS_CC_SCENARIOS); `sync_dup`: a
+    duplicated packet with counter v while the counter is known (ISO 13818-1 2.4.3.3 allows one duplicate).
+    What the sender knows: `st.frames`; `st.cc_event = (j, max_lost)`: no VBI packet is damaged; a loss of sync in
+    front of frame j may cost the frame held at that moment (j - 1) or the first frame after it (j), never both."""
+    pid = rng.choice([0x10, 0x100, 0x1FFE, rng.randrange(0x10, 0x1FFF)])
+    st = Stream("ts", pid)
+    n_frames = rng.randrange(5, 8)
+    pes = build_pes_stream_plain(rng, n_frames)
+    st.frames = pes.frames
+    at_start = scenario.startswith("start")
+    j = 0 if at_start else rng.randrange(2, n_frames - 2)
+    n_before = sum(len(pk) // 184 for packets in pes.packets[:j] for pk in packets)
+    cc = (v - n_before) & 15
+    b = []
+
+    def foreign(k):
+        out = []
+        for _ in range(k):
+            while True:
+                f = du.ts_other(rng, pid, rng.choice(["other", "other", "null", "af"]))
+                if 0x47 not in f[1:]:           # no false sync byte candidates while the demultiplexer searches
+                    break
+            out += f
+        return out
+
+    def junk():
+        n = rng.choice([1, 2, 3, 9, 10, 11, 100, 187, 188, 189, 196, 197, 198, 376, rng.randrange(1, 188), rng.randrange(1, 600)])
+        g = ts_junk(rng, n)
+        g = [0x46 if x == 0x47 else x for x in g]
+        for i in range(len(g) - 2):
+            if g[i] == 0 and g[i + 1] == 0 and g[i + 2] == 1:
+                g[i + 2] = 2
+        return g
+
+    for fi, packets in enumerate(pes.packets):
+        st.starts.append(len(b))
+        first = True
+        for pk in packets:
+            tps, cc2 = du.ts_packets(pk, pid, cc)
+            for tp in tps:
+                if fi == j and first:
+                    if scenario == "start_foreign":
+                        b += foreign(rng.randrange(1, 4))
+                    elif scenario == "start_junk":
+                        b += junk()
+                    elif scenario == "loss_junk":
+                        b += junk()
+                    elif scenario == "loss_foreign_cut":
+                        f = foreign(1)
+                        k = rng.randrange(1, 188)
+                        q = rng.randrange(1, 188 - k + 1)
+                        # k bytes missing: misaligned from here on; the two packets behind it are foreign ones too, so
+                        # that no VBI packet is touched before the sync byte search has found a packet start again
+                        b += foreign(rng.randrange(0, 2)) + f[:q] + f[q + k:] + foreign(rng.randrange(2, 4))
+                    elif scenario == "loss_junk_foreign":
+                        b += junk() + foreign(rng.randrange(1, 4))
+                    elif scenario == "loss_junk_dup":
+                        b += junk()
+                    if scenario in ("start_dup", "loss_junk_dup", "sync_dup"):
+                        b += tp                                                 # the packet twice
+                    assert tp[3] & 15 == v, (tp[3], v)
+                elif rng.random() < 0.15:
+                    b += foreign(1)
+                b += tp
+                first = False
+            cc = cc2
+    b += du.ts_other(rng, pid, "null") + du.ts_other(rng, pid, "null")
+    st.bytes = b
+    st.cc_event = (j, 0 if at_start or scenario == "sync_dup" else 1)
+    st.kind_detail = "%s cc=%d" % (scenario, v)
+    return st
+
+
 def build_pes_stream_plain(rng, n_frames):
     """PES packets only (no filler), grouped per frame, payload free of 0x47 for the TS sync search"""
     st = Stream("pes")
@@ -357,7 +442,8 @@ class C07(verif.Spec):
                     "invariance for every partition), safety, forgetting of stale state at a frame start, recovery "
                     "after the overflow packet are proved for the model (for the repaired and the unrepaired shape of "
                     "the two fixed statements alike; the two old defects are proved counterexamples for the unrepaired "
-                    "shape). TS path: invariant, safety/progress and split invariance proved in full. Coroutine "
+                    "shape). TS path: invariant, safety/progress and split invariance proved in full; continuity_counter rule (unknown "
+                    "counter accepts any value, repeated = same counter as the packet before). Coroutine "
                     "interface: progress (no livelock) for every context, and cor_equals_feed (any sequence of drained "
                     "buffers after any feed history, repaired source) proved by a second refinement. Joined with C06 (Props/C07Cor.lean): parser equivalence EnParse.pesStream vs "
                     "the demultiplexer and the round trip from the multiplexer model for every feed partition and "
@@ -396,6 +482,17 @@ class C07(verif.Spec):
             c.append(newcor)
             for part in split_at(b, cuts(rng, len(b), "many")):
                 c.append("cor " + hx(part))
+        return c
+
+    def variants_cc(self, rng, st):
+        """whole / 1-byte / 188-byte or odd pieces / random cuts / coroutine"""
+        b = st.bytes
+        new, newcor = "new ts %d" % st.ts_pid, "newcor ts %d" % st.ts_pid
+        c = [new, "feed " + hx(b), "st", new, "feedn 1 " + hx(b), "st",
+             new, "feedn %d %s" % (rng.choice([188, 188, 187, 189, 47, 197, rng.randrange(2, 400)]), hx(b)), "st", new]
+        for part in split_at(b, cuts(rng, len(b), rng.choice(["few", "many"]))):
+            c.append("feed " + hx(part))
+        c += ["st", newcor, "corn %d %s" % (rng.choice([1, 188, 10, rng.randrange(2, 300)]), hx(b))]
         return c
 
     def variants_odd(self, rng, st):
@@ -494,6 +591,15 @@ class C07(verif.Spec):
             st = build_ts_stream(rng, rng.randrange(6, 9))
             damage_ts(rng, st)
             add("ts_damage", st)
+        # every continuity_counter value of the first VBI packet seen with the expected counter unknown, every way
+        # to get into that state (quick: all 16 values x all scenarios once; thorough: 8 times)
+        for rep in range(1 if tier == "quick" else 8):
+            for scenario in TS_CC_SCENARIOS:
+                for v in range(16):
+                    st = build_ts_cc_stream(rng, v, scenario)
+                    c = self.variants_cc(rng, st)
+                    self.meta["\n".join(c)] = ("ts_cc", st)
+                    cases.append(c)
         for i in range(N // 2):
             if rng.random() < 0.5:
                 st = build_ts_stream(rng, rng.randrange(2, 5))
@@ -646,11 +752,23 @@ class C07(verif.Spec):
             return None
         exp = st.frames[:-1]          # the last frame stays pending until another one begins
         ref = [f for f in ref if f.split(" ")[1] != "n=0"]   # frames without lines carry nothing that was sent
-        if st.kind == "ts" and exp and ref and ref[0] != exp[0]:
-            # a TS demux starts unsynchronised: like after damage, the first frame may be lost or incomplete
-            # (its first PES packet is dropped when it fits one TS packet - resync branch of demux_ts_packet,
-            # reported by the C06 round-trip check); normalise it away
-            ref = [exp[0]] + (ref if len(exp) > 1 and ref[0] == exp[1] else ref[1:])
+        ev = getattr(st, "cc_event", None)
+        if ev is not None:
+            # intact VBI packets throughout; a loss of sync in front of frame j may cost frame j - 1 (held, discarded
+            # with the loss of sync) or frame j (the first one after it), not both; nothing else, nothing invented
+            j, max_lost = ev
+            lost = [i for i, f in enumerate(exp) if f not in ref]
+            if [f for f in exp if f in ref] != ref:
+                return ("intact TS stream (%s): frames delivered that were not sent or out of order"
+                        % st.kind_detail.split(" ")[0])
+            if len(lost) > max_lost or any(i not in (j - 1, j) for i in lost):
+                if max_lost == 0:
+                    return ("intact TS stream (%s): frame %d of %d is not delivered (first VBI packet seen with the "
+                            "expected continuity_counter unknown, or a duplicated packet)"
+                            % (st.kind_detail.split(" ")[0], lost[0], len(exp)))
+                return ("TS stream after a loss of sync between packets (%s): %d frames lost %s, at most one of the "
+                        "frames %d, %d may be" % (st.kind_detail.split(" ")[0], len(lost), lost, j - 1, j))
+            return None
         if st.damage is None:
             if ref != exp:
                 k = next((i for i, (a, b) in enumerate(zip(ref, exp)) if a != b), min(len(ref), len(exp)))
@@ -665,7 +783,8 @@ class C07(verif.Spec):
             # frame k is the first one beginning at an intact packet boundary; it may be lost, k+1.. must arrive
             must_tail = exp[k + 1:]
         else:
-            must_tail = exp[j + 3:]
+            # frame j is damaged, frame j + 1 is the first one after the damage: it may be lost, j + 2 .. must arrive
+            must_tail = exp[j + 2:]
         must_head = exp[:max(0, j - 1)]
         if ref[:len(must_head)] != must_head:
             return "damaged stream: frames sent before the damage are not delivered as sent"
